@@ -462,6 +462,7 @@ pub fn walk(
     max_plies: usize,
     visit: &dyn Fn(&mut Ctx, &Step) -> Result<(), Violation>,
 ) -> Result<usize, Violation> {
+    ctx.set_case(json!({"start": start.fen(), "moves": [], "position": start.fen()}));
     let board0 = match lib_start(start) {
         Some(b) => b,
         None => {
@@ -488,7 +489,7 @@ pub fn walk(
                 prev: prev.as_ref().map(|(p, b, m)| (p, b, *m)),
                 counts: &counts,
             };
-            ctx.current = Some(step.case());
+            ctx.set_case(step.case());
             visit(ctx, &step)?;
         }
         if moves.len() >= max_plies {
